@@ -264,7 +264,16 @@ impl<T: ?Sized> RwLock<T> {
             typ,
             self,
         );
+        let reentrant_read =
+            typ == RwLockType::Read && matches!(&state.holder, RwLockHolder::Read(readers) if readers.contains(me));
         drop(state);
+
+        if reentrant_read {
+            // We already hold the read lock, so this attempt fails with `WouldBlock` so we can diagnose
+            // potential deadlocks. Don't touch the semaphore, so that no permit is leaked.
+            thread::switch();
+            return false;
+        }
 
         // Semaphore is never closed, so an error here is always `NoPermits`.
         let mut acquired = self.semaphore.try_acquire(typ.num_permits()).is_ok();
